@@ -6,6 +6,11 @@ EXTENDS Fanout, Json
 CONSTANTS ReplayVideoOnly, EmitMode
 
 (* packet sequences selectable from a cfg (Pkts <- PktsXxx) *)
+PktsVSPKN == <<"vps", "sps", "pps", "key", "non">>
+PktsMVAKN == <<"meta", "vsh", "ash", "key", "non">>
+PktsMVKAK == <<"meta", "vsh", "key", "aud", "key">>
+PktsVKNA  == <<"vsh", "key", "non", "aud">>
+PktsVKK    == <<"vsh", "key", "key">>
 PktsSKN   == <<"sps", "key", "non">>
 PktsKN    == <<"key", "non">>
 PktsK     == <<"key">>
@@ -55,14 +60,29 @@ LockHolderMoves == (FixJoin /\ lk # "free") => pc[lk] \notin {"waiting", "lockwa
 DropsAligned ==
   /\ \A c \in Cons : lo[c] >= 0 => P!DeliveredOKDrops(delivered[c], lo[c], HiNow(c), cached)
   /\ \A c \in Cons : \A i \in P!Range(withheld[c]) :
-        /\ ((i - 1) \notin P!Range(withheld[c])) => Pkts[i] = "key"
-        /\ ((i + 1) \notin P!Range(withheld[c]) /\ i + 1 <= sentAll) => Pkts[i + 1] = "key"
+        ((i - 1) \notin P!Range(withheld[c])) => Pkts[i] = "key"      \* a withheld run begins at a key packet; that it
+                                                                    \* ends at one is the AlignedLive part of DeliveredOKDrops
 Backlog == \A c \in Cons : P!BacklogOK(Len(q[c]), MaxQ, 2 + P!G, cached)
 
 (* ---- schedule emission ---------------------------------------------------- *)
 (* EmitMode "edges": printed from an ACTION_CONSTRAINT, once per explored transition (BFS with
    VIEW = View, so one shortest schedule per (state, action) edge).
    EmitMode "final": printed when a behaviour reaches quiescence (simulation).              *)
-EmitEdge == (EmitMode = "edges") => PrintT(<<"@S", ToJson(hist')>>)
+(* "racy" edges: transitions taken while at least RacyMin processes are in the middle of an operation
+   (parked at an inner hook); the quick tier replays the edge cover restricted to them *)
+Inner(p) == pc[p] \notin {"start", "done", "idle", "waiting", "lockwait"}
+RacyMin == 3
+Racy == Cardinality({p \in Procs : Inner(p)}) >= RacyMin
+(* class of a transition, for stratified sampling of the edge cover: where every process is parked after it,
+   who moved, the kind of the packet in flight, capped queue lengths and the closed flags                    *)
+Cap2(n) == IF n > 2 THEN 2 ELSE n
+EdgeClass == <<pc', hist'[Len(hist')], IF pi' <= NP THEN Kind(pi') ELSE "-", [c \in Cons |-> Cap2(Len(q'[c]))], closedF', disc'>>
+EmitEdge ==
+  CASE EmitMode = "edges" \/ (EmitMode = "racy" /\ Racy) -> PrintT(<<"@E", ToJson([h |-> hist', k |-> ToJson(EdgeClass)])>>)
+    [] EmitMode = "racy1" /\ Racy ->      \* first (BFS-shortest) transition of every class only; needs -workers 1
+         IF EdgeClass \in TLCGet(1) THEN TRUE
+         ELSE TLCSet(1, TLCGet(1) \cup {EdgeClass}) /\ PrintT(<<"@E", ToJson([h |-> hist', k |-> "first"])>>)
+    [] OTHER -> TRUE
+InitR == Init /\ TLCSet(1, {})
 EmitFinal == (EmitMode = "final" /\ Quiescent) => PrintT(<<"@S", ToJson(hist)>>)
 ================================================================================
